@@ -149,11 +149,13 @@ def install_all():
 
 
 class HangDetected(BaseException):
-    """raised by the wall-clock watchdog; a BaseException so that pydra's own `except Exception` handlers cannot swallow it"""
+    """raised by the watchdog; a BaseException so that pydra's own `except Exception` handlers cannot swallow it"""
 
 
 class deadline:
-    """wall-clock watchdog for one submission (SIGALRM): loops that the step budgets do not cover are still reported as hangs"""
+    """watchdog for one submission: loops that the step budgets do not cover are still reported as hangs.  The limit is on the
+    CPU time of the process (ITIMER_PROF), so that a loaded machine does not turn a slow run into a 'hang'; a wall-clock limit
+    eight times as long backs it up for loops that block instead of spinning."""
 
     def __init__(self, seconds):
         self.seconds = seconds
@@ -162,15 +164,19 @@ class deadline:
         import signal
 
         def handler(signum, frame):
-            raise HangDetected("no result after %d s of wall time" % self.seconds)
+            raise HangDetected("no result after %d s of CPU time (or %d s of wall time)" % (self.seconds, 8 * self.seconds))
         self._old = signal.signal(signal.SIGALRM, handler)
-        signal.setitimer(signal.ITIMER_REAL, self.seconds)
+        self._old_prof = signal.signal(signal.SIGPROF, handler)
+        signal.setitimer(signal.ITIMER_PROF, self.seconds)
+        signal.setitimer(signal.ITIMER_REAL, 8 * self.seconds)
         return self
 
     def __exit__(self, *exc):
         import signal
+        signal.setitimer(signal.ITIMER_PROF, 0)
         signal.setitimer(signal.ITIMER_REAL, 0)
         signal.signal(signal.SIGALRM, self._old)
+        signal.signal(signal.SIGPROF, self._old_prof)
         return False
 
 
